@@ -569,12 +569,15 @@ def check(prop, tier):
             batches.append(("generated", eng_, gen_cases(eng_, seed, n_e, tier, prop)))
     strong_found = []
     weak_found = []
+    first_samples = []
     for bname, engine, ops_text in batches if okm else []:
         fails, stats, impl_out, model_out = run_both(engine, prop, ops_text, timeout=900 if tier == "quick" else 3600)
         for k in all_stats:
             all_stats[k] += stats[k]
         cases = split_cases(ops_text)
         cd = dict(cases)
+        if bname == "generated" and cases and not first_samples:
+            first_samples.append({"engine": engine, "case": cases[0][0], "n_ops": len(cases[0][1]), "ops": cases[0][1][:60]})
         for cid, ops in cases:
             evaluations += 1
             h = hashlib.sha1("\n".join(ops).encode()).hexdigest()
@@ -583,8 +586,8 @@ def check(prop, tier):
             for o in ops:
                 k = o.split(" ", 1)[0]
                 hist[k] = hist.get(k, 0) + 1
-            if len(samples) < 3 and bname == "generated" and len(ops) <= 40:
-                samples.append({"case": cid, "ops": ops[:40]})
+            if len(samples) < 3 and bname == "generated" and (len(ops) <= 40 or evaluations % 97 == 0):
+                samples.append({"engine": engine, "case": cid, "n_ops": len(ops), "ops": ops[:60]})
         seen_cases = set()
         for f in fails:
             if f.case_id in seen_cases:
@@ -657,7 +660,7 @@ def check(prop, tier):
         "evaluations": evaluations,
         "distinct_nontrivial": len(distinct),
         "rule": cfg.get("rule", ""),
-        "samples": samples or [{"note": "no generated sample small enough to print"}],
+        "samples": samples or first_samples,
         "op_histogram": hist,
         "observables_compared": all_stats,
         "known_findings_reproduced": known_lines,
